@@ -2,7 +2,7 @@
    assembly, BufRead::lines, find_and_output with both colour arms, prefixes); clap, termcolor and
    the I/O are outside and observed on the real dev and release binaries by ./check C16. *)
 From DV Require Import Model.Base Model.Nfa Model.BwBuild Model.BwSearch Model.Api Model.Spec
-     Model.Cert Model.Cli Proofs.CliProps.
+     Model.Cert Model.Cli Model.Utf8 Proofs.CliProps Proofs.Utf8Props Theory.Utf8Spec Proofs.CliColour.
 Local Open Scope N_scope.
 
 (* "the line contains an occurrence of some pattern", on the property's own vocabulary *)
@@ -31,8 +31,7 @@ Theorem cli_filter :
 Proof. intros A pvs C fl fname Hc ls i Hb. exact (run_lines_plain A pvs C fl fname Hc ls i Hb). Qed.
 Print Assumptions cli_filter.
 
-(* With colour the same lines are selected (the bytes between the escape sequences are compared
-   with the real binaries; the highlight theorem is listed as missing in DESIGN.md) *)
+(* With colour the same lines are selected *)
 Theorem cli_colour_selects_same_lines :
   forall (A : bw_automaton unit) (pvs : list (list N * unit)), bw_cert_ok ueqb A pvs = true ->
   forall prefix line, Forall (fun b => b < 256) line ->
@@ -55,3 +54,61 @@ Example c16_observed :
   | _ => False
   end.
 Proof. vm_compute. split; reflexivity. Qed.
+
+(* ---- THE HIGHLIGHTER --------------------------------------------------------------------------------
+   With colour, for a line that contains an occurrence, find_and_output prints prefix, then the
+   line cut into maximal runs, each run behind the escape sequence of its colour (red for covered
+   bytes, reset for the others; a final reset when the line ends in red), then LF.  [render] is
+   that rendering for the coverage function of ALL pattern occurrences ("the highlighted bytes of
+   a line are exactly those covered by at least one occurrence of some pattern"), although the
+   program only looks at the longest match per end position.  Hypothesis: occurrences start and
+   end on character boundaries (the program slices the line as a str; otherwise it would panic)
+   -- true of every UTF-8 line and UTF-8 patterns (cli_highlight_utf8). *)
+Theorem cli_highlight :
+  forall (A : bw_automaton unit) (pvs : list (list N * unit)), bw_cert_ok ueqb A pvs = true ->
+  forall prefix line, Forall (fun b => b < 256) line -> has_occ pvs line = true ->
+    (forall s e v, occ_at unit pvs line s e v -> is_char_boundary line s = true /\ is_char_boundary line e = true) ->
+    find_and_output A true prefix line
+    = Ok (Some (prefix ++ render (covered (occs_of pvs line)) line 0 false [] ++ [10])).
+Proof. intros A pvs C prefix line Hb Ho Hbd. exact (find_and_output_colour A pvs C prefix line Hb Ho Hbd). Qed.
+Print Assumptions cli_highlight.
+
+(* what a rendering is: painted segments whose bytes are the line's bytes, each red exactly when
+   it is covered *)
+Theorem rendering_is_the_coloured_line :
+  forall (cov : nat -> bool) (line : list N),
+    render cov line 0 false [] = flat_map paint (segs cov line 0 false []) ++ (if last_red (segs cov line 0 false []) then ESC_RESET else [])
+    /\ flat_map (fun seg => map (fun b => (b, fst seg)) (snd seg)) (segs cov line 0 false [])
+       = combine line (map cov (seq 0 (length line))).
+Proof. intros cov line. split; [apply render_segs|exact (segs_coloured cov line 0%nat false [])]. Qed.
+Print Assumptions rendering_is_the_coloured_line.
+
+(* UTF-8 lines and UTF-8 patterns (what the command line hands the program): every occurrence
+   starts and ends on a character boundary, so the highlighter never panics on a slice *)
+Theorem cli_highlight_utf8 :
+  forall (A : bw_automaton unit) (cpvs : list (list N * unit)),
+    (forall p v, In (p, v) cpvs -> p <> []) -> (forall p v, In (p, v) cpvs -> Forall scalar p) ->
+    bw_cert_ok ueqb A (bpvs unit cpvs) = true ->
+  forall prefix cs, Forall scalar cs -> has_occ (bpvs unit cpvs) (encode_utf8 cs) = true ->
+    find_and_output A true prefix (encode_utf8 cs)
+    = Ok (Some (prefix ++ render (covered (occs_of (bpvs unit cpvs) (encode_utf8 cs))) (encode_utf8 cs) 0 false [] ++ [10])).
+Proof.
+  intros A cpvs Hne Hsc C prefix cs Hcs Ho.
+  apply (find_and_output_colour A (bpvs unit cpvs) C prefix (encode_utf8 cs)); [|exact Ho|exact (utf8_occurrences_on_boundaries cpvs cs Hne Hsc Hcs)].
+  apply Forall_forall. intros b Hb. unfold encode_utf8 in Hb. apply in_flat_map in Hb as (c & Hc & Hb).
+  rewrite Forall_forall in Hcs. specialize (Hcs c Hc). apply scalar_range in Hcs. unfold encode_char in Hb.
+  destruct (c <? 128) eqn:E1; [destruct Hb as [<-|[]]; lia|].
+  destruct (c <? 2048) eqn:E2; [destruct Hb as [<-|[<-|[]]]; lia|].
+  destruct (c <? 65536) eqn:E3; [destruct Hb as [<-|[<-|[<-|[]]]]; lia|].
+  destruct Hb as [<-|[<-|[<-|[<-|[]]]]]; lia.
+Qed.
+Print Assumptions cli_highlight_utf8.
+
+(* Non-vacuity: patterns ab / bc on "xabcx": bytes 1..3 are red. *)
+Example c16_highlight_observed :
+  match bw_build unit (fun _ => Some tt) Standard NFB_DEFAULT ex_pats with
+  | Ok A => find_and_output A true [] [120; 97; 98; 99; 120]
+            = Ok (Some (ESC_RESET ++ [120] ++ ESC_RED ++ [97; 98; 99] ++ ESC_RESET ++ [120] ++ [10]))
+  | _ => False
+  end.
+Proof. vm_compute. reflexivity. Qed.
